@@ -11,38 +11,28 @@ from formlib import pfn, pfo, DOMAIN, close, me, ans_float, rnd
 import atsim.potentials as ap
 
 
-def richardson(f, r, h):
-    def d(hh):
-        return (f(r + hh) - f(r - hh)) / (2 * hh)
-    return (4 * d(h / 2) - d(h)) / 3
-
-
 def deriv_problem(f, r, bounds=()):
-    """compare f.deriv / f.deriv2 at r with 4th-order differences of f / f.deriv; None when consistent"""
+    """compare f.deriv / f.deriv2 at r with Ridders-extrapolated differences of f / f.deriv (tracers.ridders: estimate + its own error estimate);
+    None when consistent or when the numerical reference has not converged at this point"""
+    from tracers import ridders, ORACLE
     h0 = 1e-3 * max(abs(r), 0.05)
     if any(abs(r - b) < 3 * h0 for b in bounds):
         return None
+    room = min([abs(r - b) for b in bounds], default=None)
     out = []
-
-    def step(val, der):
-        """shrink the stencil where the function is steep (|f'/f| large), so that the 4th-order truncation error stays ~1e-8 relative"""
-        steep = abs(der) / (abs(val) + 1e-300)
-        return min(h0, 0.02 / (steep + 1e-9))
     try:
         if hasattr(f, "deriv"):
             got = f.deriv(r)
-            h = step(f(r), got)
-            ref = richardson(f, r, h)
-            noise = 1e-12 * (abs(f(r + h)) + abs(f(r - h))) / h
-            if abs(got - ref) > 2e-6 * max(abs(ref), abs(got)) + noise + 1e-9:
-                out.append("deriv(%r) = %r but dE/dr = %r" % (r, got, ref))
+            ref, err = ridders(f, r, room=room)
+            ORACLE["reference_converged" if err <= 1e-7 * abs(ref) + 1e-11 else "reference_not_converged"] += 1
+            if err <= 1e-7 * abs(ref) + 1e-11 and abs(got - ref) > 2e-6 * max(abs(ref), abs(got)) + 10 * err + 1e-9:
+                out.append("deriv(%r) = %r but dE/dr = %r (+-%.1e)" % (r, got, ref, err))
         if hasattr(f, "deriv2") and hasattr(f, "deriv"):
             got = f.deriv2(r)
-            h = step(f.deriv(r), got)
-            ref = richardson(f.deriv, r, h)
-            noise = 1e-12 * (abs(f.deriv(r + h)) + abs(f.deriv(r - h))) / h
-            if abs(got - ref) > 2e-6 * max(abs(ref), abs(got)) + noise + 1e-9:
-                out.append("deriv2(%r) = %r but d(deriv)/dr = %r" % (r, got, ref))
+            ref, err = ridders(f.deriv, r, room=room)
+            ORACLE["reference_converged" if err <= 1e-7 * abs(ref) + 1e-11 else "reference_not_converged"] += 1
+            if err <= 1e-7 * abs(ref) + 1e-11 and abs(got - ref) > 2e-6 * max(abs(ref), abs(got)) + 10 * err + 1e-9:
+                out.append("deriv2(%r) = %r but d(deriv)/dr = %r (+-%.1e)" % (r, got, ref, err))
     except (OverflowError, ZeroDivisionError, ValueError):
         return None
     return "; ".join(out) if out else None
@@ -242,10 +232,12 @@ def check(run):
                          dict(form="polynomial", which=which, r=r, coefs=cs))
                 break
             exact = sum(i * c * r ** (i - 1) for i, c in enumerate(cs) if i >= 1) if which == "deriv" else sum(i * (i - 1) * c * r ** (i - 2) for i, c in enumerate(cs) if i >= 2)
-            if not close(v, exact, 1e-12, 1e-12):
+            # rounding error of any summation order is bounded by (number of terms) * eps * (sum of the terms' magnitudes): the tolerance is relative to that, not to a cancelled result
+            mag = sum(abs(i * c * r ** (i - 1)) for i, c in enumerate(cs) if i >= 1) if which == "deriv" else sum(abs(i * (i - 1) * c * r ** (i - 2)) for i, c in enumerate(cs) if i >= 2)
+            if not close(v, exact, 1e-12, 1e-12 + 1e-14 * len(cs) * mag):
                 run.fail("deriv-mismatch", "polynomial.%s(%r, %s) = %r, exact %r" % (which, r, cs, v, exact), dict(form="polynomial", which=which, r=r, coefs=cs))
                 break
-            if not close(ans_float(a), v, 1e-13, 1e-300):
+            if not close(ans_float(a), v, 1e-13, 1e-300 + 4e-16 * len(cs) * mag):
                 run.tie_broken("correspondence", "Atsim.polyDeriv(2) vs potentialfunctions.polynomial", "%s r=%r coefs=%s impl=%r model=%r" % (which, r, cs, v, ans_float(a)))
                 break
     # ---- fallback locality --------------------------------------------------------------------------------------------------
